@@ -278,6 +278,8 @@ class Executor:
             return True
         if z3.is_false(cond):
             return False
+        if self.in_quantifier:
+            raise OutOfSubset('a specification forks on a symbolic condition inside a quantifier body')
         if self.pos < len(self.prefix):
             d = self.prefix[self.pos]
         else:
@@ -841,6 +843,7 @@ class Executor:
         return VStr(self.fresh('fstr', z3.StringSort()))
 
     pure = 0     # > 0 while evaluating specification expressions: merge instead of forking
+    in_quantifier = 0
 
     def merge(self, c, a: Val, b: Val):
         """If(c, a, b) for two values of the same simple kind, else None."""
@@ -850,6 +853,10 @@ class Executor:
             return VInt(z3.If(c, a.t, b.t), a.pycls)
         if isinstance(a, VStr) and isinstance(b, VStr):
             return VStr(z3.If(c, a.t, b.t))
+        if isinstance(a, VItem) and isinstance(b, VItem):
+            return VItem(z3.If(c, a.t, b.t))
+        if isinstance(a, VItv) and isinstance(b, VItv):
+            return VItv(z3.If(c, a.t, b.t))
         if type(a) is VDec and type(b) is VDec:
             return VDec(z3.If(c, a.t, b.t), z3.If(c, a.neg, b.neg))
         if type(a) is VFrac and type(b) is VFrac:
